@@ -236,6 +236,7 @@ fn synth_world(seed: u64, async_ok: bool) -> String {
     // foreign packages whose interfaces share their last name segment (so that
     // per-package import lists have ties on it)
     let mut foreign: Vec<(String, Vec<String>)> = vec![];
+    let mut svcs: Vec<String> = vec![];
     for d in 0..r.pick(4) {
         let seg = ["types", "api", "types", "core"][r.pick(4)];
         let mut body = String::new();
@@ -249,8 +250,21 @@ fn synth_world(seed: u64, async_ok: bool) -> String {
             }
             tys.push(tn);
         }
-        s.push_str(&format!("package verif:dep{d} {{\n  interface {seg} {{\n{body}  }}\n}}\n\n"));
-        foreign.push((format!("verif:dep{d}/{seg}"), tys));
+        // every foreign package also has an interface `svc` with functions only: the world exports
+        // all of them (same interface name from different packages, in both directions)
+        let svc = format!("  interface svc {{\n    ping{d}: func(x: u32) -> u32;\n    pong: func(s: string) -> string;\n  }}\n");
+        if d == 0 && r.pick(2) == 0 {
+            // two versions of the same package, both in use
+            s.push_str(&format!("package verif:dep{d}@1.0.0 {{\n  interface {seg} {{\n{body}  }}\n{svc}}}\n\n"));
+            s.push_str(&format!("package verif:dep{d}@2.0.0 {{\n  interface {seg} {{\n{body}  }}\n}}\n\n"));
+            foreign.push((format!("verif:dep{d}/{seg}@1.0.0"), tys.clone()));
+            foreign.push((format!("verif:dep{d}/{seg}@2.0.0"), tys));
+            svcs.push(format!("verif:dep{d}/svc@1.0.0"));
+        } else {
+            s.push_str(&format!("package verif:dep{d} {{\n  interface {seg} {{\n{body}  }}\n{svc}}}\n\n"));
+            foreign.push((format!("verif:dep{d}/{seg}"), tys));
+            svcs.push(format!("verif:dep{d}/svc"));
+        }
     }
     let nif = 3 + r.pick(6);
     let mut ifnames = BTreeSet::new();
@@ -354,13 +368,42 @@ fn synth_world(seed: u64, async_ok: bool) -> String {
             }
         }
     }
+    for (i, sv) in svcs.iter().enumerate() {
+        s.push_str(&format!("  export {sv};\n"));
+        if i % 2 == 0 {
+            s.push_str(&format!("  import {sv};\n"));
+        }
+    }
+    // types defined by the world itself, used by world-level functions in both directions
+    let mut wtypes: Vec<String> = vec![];
+    for k in 0..r.pick(5) {
+        let tn = format!("wt{k}-{}", WORDS[r.pick(WORDS.len())]);
+        let mut f = BTreeSet::new();
+        match r.pick(4) {
+            0 | 1 => {
+                let cases: Vec<String> = (0..2 + r.pick(4)).map(|_| ident(&mut r, &mut f)).collect();
+                s.push_str(&format!("  enum {tn} {{ {} }}\n", cases.join(", ")));
+            }
+            2 => {
+                let fields: Vec<String> = (0..1 + r.pick(3)).map(|_| format!("{}: {}", ident(&mut r, &mut f), prim(&mut r))).collect();
+                s.push_str(&format!("  record {tn} {{ {} }}\n", fields.join(", ")));
+            }
+            _ => {
+                let cases: Vec<String> = (0..1 + r.pick(4)).map(|_| ident(&mut r, &mut f)).collect();
+                s.push_str(&format!("  flags {tn} {{ {} }}\n", cases.join(", ")));
+            }
+        }
+        wtypes.push(tn);
+    }
     for _ in 0..r.pick(4) {
         let n = ident(&mut r, &mut used);
         if ifnames.contains(&n) {
             continue;
         }
         let dir = if r.pick(2) == 0 { "import" } else { "export" };
-        s.push_str(&format!("  {dir} {n}: func(a: {}) -> {};\n", prim(&mut r), prim(&mut r)));
+        let mut t = |r: &mut Rng| if !wtypes.is_empty() && r.pick(2) == 0 { wtypes[r.pick(wtypes.len())].clone() } else { prim(r).to_string() };
+        let (a, b) = (t(&mut r), t(&mut r));
+        s.push_str(&format!("  {dir} {n}: func(a: {a}) -> {b};\n"));
     }
     s.push_str("}\n");
     s
